@@ -22,7 +22,13 @@ TIMEOUT = 3000
 ROOT = os.environ.get('VERIF_ROOT', os.path.dirname(os.path.dirname(_HERE)))
 REPO = os.environ.get('VERIF_REPO', '/repo')
 TARGET = os.path.join(ROOT, 'harness', 'target', 'probes_c19')
-ENV = dict(os.environ, CARGO_NET_OFFLINE='true', CARGO_TARGET_DIR=os.path.join(TARGET, 'td'))
+def repo_tag():
+    return hashlib.blake2b(REPO.encode(), digest_size=4).hexdigest()
+
+
+# one cargo target directory per checked tree: artifacts of equally named scratch crates built against different
+# trees (VERIF_REPO runs, possibly concurrent) must never be mistaken for one another
+ENV = dict(os.environ, CARGO_NET_OFFLINE='true', CARGO_TARGET_DIR=os.path.join(TARGET, 'td_' + repo_tag()))
 RULE = ('corpus; `lit`: literals compiled through the real ruint::uint! in generated probe crates (each inside a nesting wrapper of '
         'groups / ordinary literals / strings containing "U8"; limbs and width printed at run time and compared with the model, '
         'with positional notation and, in the probe itself, with run-time from_str_radix of the same digits; compile_error! '
@@ -321,10 +327,6 @@ class Lock:
         self.f.close()
 
 
-def repo_tag():
-    return hashlib.blake2b(REPO.encode(), digest_size=4).hexdigest()
-
-
 def fast_build():
     """-> (path of the test executable, None) or (None, reason)"""
     src_path = os.path.join(REPO, 'ruint-macro', 'src', 'lib.rs')
@@ -335,10 +337,11 @@ def fast_build():
     os.makedirs(os.path.join(d, 'src'), exist_ok=True)
     h = hashlib.blake2b(src.encode(), digest_size=8).hexdigest()
     stamp = os.path.join(d, 'built.json')
-    with Lock('fast'):
+    with Lock('fast_' + repo_tag()):
         if os.path.exists(stamp):
             st = json.load(open(stamp))
-            if st.get('hash') == h and (st.get('exe') is None or os.path.exists(st['exe'])):
+            if st.get('hash') == h and (st.get('exe') is None or
+                                        (os.path.exists(st['exe']) and os.path.getmtime(st['exe']) == st.get('mtime'))):
                 return st.get('exe'), st.get('why')
         open(os.path.join(d, 'src', 'lib.rs'), 'w').write(src)
         open(os.path.join(d, 'README.md'), 'w').write('stub\n')
@@ -356,7 +359,7 @@ def fast_build():
         if p.returncode != 0 or not exe:
             exe = None
             why = 'fast path unavailable (private names of ruint-macro changed or it does not build): ' + (p.stderr[-600:] or p.stdout[-600:])
-        json.dump({'hash': h, 'exe': exe, 'why': why}, open(stamp, 'w'))
+        json.dump({'hash': h, 'exe': exe, 'why': why, 'mtime': os.path.getmtime(exe) if exe else None}, open(stamp, 'w'))
         return exe, why
 
 
@@ -498,7 +501,7 @@ def lit_run(lits, tag='lit'):
     drop the failing lines, recompile, run. -> canonical outcome per literal"""
     d = os.path.join(TARGET, 'probe_' + repo_tag())
     res = [None] * len(lits)
-    with Lock('lit'):
+    with Lock('lit_' + repo_tag()):
         os.makedirs(os.path.join(d, 'src'), exist_ok=True)
         open(os.path.join(d, 'Cargo.toml'), 'w').write(
             '[package]\nname = "c19probe"\nversion = "0.0.0"\nedition = "2021"\npublish = false\n\n[dependencies]\nruint = { path = "%s" }\n\n[workspace]\n' % REPO)
@@ -625,7 +628,7 @@ PROGRAM_EXPECT = [
 
 def program_probe():
     d = os.path.join(TARGET, 'program_' + repo_tag())
-    with Lock('lit'):
+    with Lock('lit_' + repo_tag()):
         os.makedirs(os.path.join(d, 'src'), exist_ok=True)
         open(os.path.join(d, 'Cargo.toml'), 'w').write(
             '[package]\nname = "c19program"\nversion = "0.0.0"\nedition = "2021"\npublish = false\n\n[dependencies]\nruint = { path = "%s" }\n\n[workspace]\n' % REPO)
